@@ -182,6 +182,26 @@ MUTANTS = [
       "        d = self._decode_blocks(results, segnum)\n        d.addCallback(self._decrypt_segment)\n        # check to see",
       "        good = [x for x in results if x is not None]\n        d = self._decode_blocks(good, segnum)\n"
       "        d.addCallback(self._decrypt_segment)\n        # check to see", None),
+    M("per-share-chain-validation-not-registered", RET,
+      "            d = deferredutil.gatherResults([d1,d2,d3])\n"
+      "            d.addCallback(self._validate_block, segnum, reader, reader.server, started)\n",
+      "            d = deferredutil.gatherResults([d1,d2,d3])\n"
+      "            d.addCallback(lambda res, reader=reader: {reader.shnum: res[0]})\n", "C10.8"),
+    M("per-share-chain-extra-callback-after-errback", RET,
+      "            d.addErrback(self._handle_bad_share, [reader])\n            ds.append(d)\n",
+      "            d.addErrback(self._handle_bad_share, [reader])\n            d.addCallback(lambda res: res or {})\n            ds.append(d)\n",
+      "C10.8"),
+    M("process-segment-benign-deferreds-renamed", RET,
+      "            d = deferredutil.gatherResults([d1,d2,d3])\n"
+      "            d.addCallback(self._validate_block, segnum, reader, reader.server, started)\n",
+      "            d_sa = deferredutil.gatherResults([d1,d2,d3])\n"
+      "            d_sa.addCallback(self._validate_block, segnum, reader, reader.server, started)\n", None,
+      edits=[(RET, "            d.addErrback(self._handle_bad_share, [reader])\n            ds.append(d)\n        dl = deferredutil.gatherResults(ds)\n",
+              "            d_sa.addErrback(self._handle_bad_share, [reader])\n            ds.append(d_sa)\n        gathered = deferredutil.gatherResults(ds)\n"),
+             (RET, "        if self._verify:\n            dl.addCallback(lambda ignored: \"\")\n            dl.addCallback(self._set_segment)\n"
+                   "        else:\n            dl.addCallback(self._maybe_decode_and_decrypt_segment, segnum)\n        return dl\n",
+              "        if self._verify:\n            gathered.addCallback(lambda ignored: \"\")\n            gathered.addCallback(self._set_segment)\n"
+              "        else:\n            gathered.addCallback(self._maybe_decode_and_decrypt_segment, segnum)\n        return gathered\n")]),
     # ---- C10.9 private key gates
     M("privkey-compare-deleted-servermap", SM, SM_PRIV_IF, "", "C10.9"),
     M("privkey-compare-deleted-retrieve", RET,
